@@ -29,7 +29,7 @@ ASSUMPTIONS = ['ground truth = generator; configured start values outside the (o
                'generated classes are made importable through a synthetic module "frappy_verifgen"']
 REQUIRED = ['valid_configs', 'erroneous_configs', 'start_values_checked', 'overrides_checked', 'errors_injected',
             'rejections_checked', 'merged_configs', 'write_order_nodes', 'configured_writes_checked',
-            'array_element_limit_probes', 'write_order_nodes_with_failing_write']
+            'array_element_limit_probes', 'write_order_nodes_with_failing_write', 'write_order_handler_nodes']
 
 N = {'quick': 40, 'thorough': 2000}
 GENMOD = 'frappy_verifgen'
@@ -567,6 +567,75 @@ class World:
             node.secnode.shutdown_modules()
 
 
+def run_write_order_handler(w, r, rng):
+    """configured values of parameters that share one write method (frappy.rwhandler.CommonWriteHandler): the common
+    method receives all configured values of its group in ONE call, exactly once, before the first poll; parameters
+    with their own write method beside it are written once each"""
+    import frappy.core as C
+    from frappy.rwhandler import CommonWriteHandler
+    group = rng.sample(['p', 'i', 'd', 'q'], rng.choice([2, 3]))
+    events = []
+    ns = {'__module__': __name__, 'single': C.Parameter('own write method', C.FloatRange(), readonly=False, default=0.0)}
+    for k in group:
+        ns[k] = C.Parameter(f'group member {k}', C.FloatRange(), readonly=False, default=0.0)
+
+    def write_group(self, values):
+        got = {k: float(values[k]) for k in group}
+        events.append(('write-group', got))
+        for k, v in got.items():
+            setattr(self, k, v)
+    ns['write_group'] = CommonWriteHandler(group)(write_group)
+
+    def write_single(self, v):
+        events.append(('write-single', float(v)))
+        return v
+    ns['write_single'] = write_single
+
+    def read_value(self):
+        events.append(('poll', None))
+        return 0.0
+    ns['read_value'] = read_value
+    cls = type('GroupMod', (C.Readable,), ns)
+    configured = {k: float(rng.randint(1, 99)) for k in rng.sample(group, rng.choice([1, 2, len(group)]))}
+    cfg = {'cls': cls, 'description': 'x'}
+    for k, v in configured.items():
+        cfg[k] = {'value': v}
+    single = rng.random() < 0.6
+    if single:
+        cfg['single'] = {'value': 7.5}
+    case = {'sub': 'write-order-handler', 'group': group, 'configured': configured, 'single': single}
+    try:
+        node = w.nodes.Node({'g': cfg}, testonly=False).build()
+    except BaseException as e:
+        r.violation('C10/valid-config-rejected', f'(common write handler) {type(e).__name__}: {e}'[:200], case)
+        return
+    try:
+        r.count('write_order_handler_nodes')
+        evs = list(events)
+        first_poll = next((i for i, e in enumerate(evs) if e[0] == 'poll'), len(evs))
+        gw = [(i, e[1]) for i, e in enumerate(evs) if e[0] == 'write-group']
+        r.count('configured_writes_checked')
+        if len(gw) != 1:
+            r.violation(f'C10/configured-write-count/{len(gw)}/common-handler', f'the common write method was called {len(gw)}x for the configured values {configured}: {evs[:6]}', case)
+            return
+        want = {k: configured.get(k, 0.0) for k in group}
+        if gw[0][1] != want:
+            r.violation('C10/configured-write-value/common-handler', f'the common write method received {gw[0][1]}, configured {want}', case)
+            return
+        if gw[0][0] > first_poll:
+            r.violation('C10/configured-write-after-first-poll', f'common handler: {evs[:6]}', case)
+            return
+        sw = [i for i, e in enumerate(evs) if e[0] == 'write-single']
+        if single and (len(sw) != 1 or sw[0] > first_poll):
+            r.violation(f'C10/configured-write-count/{len(sw)}', f'write_single beside a common handler: {evs[:6]}', case)
+            return
+        mod = node.secnode.modules['g']
+        if any(getattr(mod, k) != v for k, v in configured.items()):
+            r.violation('C10/start-value-differs/double/common-handler', f'cache { {k: getattr(mod, k) for k in group} } configured {configured}', case)
+    finally:
+        node.secnode.shutdown_modules()
+
+
 class RawValue:
     def __init__(self, v):
         self.v = v
@@ -595,6 +664,7 @@ def run_shard(shard):
             w.run_valid(mods, cfgs)
             if i % 3 == 0:
                 w.run_write_order(mods, cfgs)
+                run_write_order_handler(w, r, rng)
             w.run_erroneous(mods, cfgs)
     finally:
         w.close()
